@@ -1,5 +1,6 @@
 import Mp4ff.Model.Crop
 import Mp4ff.Lemmas.C10
+import Mp4ff.Lemmas.C10D
 /-!
 # C10 — cropping a progressive file yields exactly a prefix of every track
 Property theorems about `Model/Crop.lean` (the transcription of cmd/mp4ff-crop/main.go): the cut point, every
@@ -42,15 +43,16 @@ theorem ctts_expand_ofCounts (counts : List Nat) (offs : List Int) (hl : counts.
     (hs : counts.sum < U32) : Ctts.expand (Ctts.ofCounts counts offs) = expandRuns counts offs :=
   Crop.ctts_expand_ofCounts counts offs hl hs
 
-/-- **stsc**: every chunk before the one holding sample `last` keeps its size; that chunk is cut right after `last`
-    (also when the cut lands in the first chunk of an entry, where the tool appends an entry with the same
-    first_chunk: the later entry wins in the ISO semantics `spcOf`) -/
+/-- **stsc**: every chunk before the one holding sample `last` keeps its size; that chunk is cut right after `last`;
+    the cropped table is again a well-formed stsc table (first_chunk strictly increasing from 1, positive
+    samples_per_chunk) -/
 theorem cropStsc_spec (raw : List (Nat × Nat × Nat)) (h : RawOK raw) (cmax c last : Nat) (hw : NoWrap raw cmax)
     (h1 : 1 ≤ c) (hc : c ≤ cmax) (hlo : firstSampleOf raw c ≤ last) (hhi : last < firstSampleOf raw (c + 1)) :
     ∃ raw', cropStsc raw last = some raw' ∧
       (∀ j, 1 ≤ j → j < c → spcOf raw' j = spcOf raw j) ∧
       spcOf raw' c = last + 1 - firstSampleOf raw c ∧
-      firstSampleOf raw' (c + 1) = last + 1 := Crop.cropStsc_spec raw h cmax c last hw h1 hc hlo hhi
+      firstSampleOf raw' (c + 1) = last + 1 ∧
+      RawOK raw' := Crop.cropStsc_spec raw h cmax c last hw h1 hc hlo hhi
 
 /-- **stsz**: sizes of the first `last` samples are unchanged, the count is `last` -/
 theorem cropStsz_spec (b : Stsz) (h : b.OK) (last : Nat) (hlast : last ≤ b.sampleNumber) :
